@@ -46,10 +46,20 @@ func VerifC01_ResponderCompleteSites() {
 	ctx := context.Background()
 	site := zz.Choice("site", 3)
 	var completeErr error
+	raced := false
 	switch site {
 	case 0:
 		if zz.Bool("transportFailed") {
 			completeErr = zz.Error("transport")
+		}
+		raced = zz.Bool("revalidatedWhileSending")
+		if raced {
+			// the application changes the finalization requirement exactly while the Complete is written
+			want := !st.RequiresFinalization
+			f.net.Hook = func() {
+				_ = f.m.UpdateValidationStatus(ctx, chid, datatransfer.ValidationResult{Accepted: true, RequiresFinalization: want, DataLimit: st.DataLimit})
+			}
+			zz.Reach("revalidation races with the Complete message")
 		}
 		_ = f.m.OnChannelCompleted(chid, completeErr)
 	case 1:
@@ -66,7 +76,9 @@ func VerifC01_ResponderCompleteSites() {
 		zz.Assert(completeErr == nil, "the final Complete is sent only after the transport finished without error")
 		if site == 0 {
 			zz.Assert(post.Status == datatransfer.Completed, "after sending the final Complete the responder settles in Completed")
-			zz.Assert(!st.RequiresFinalization, "and only when no finalization is required")
+			if f.net.Hook == nil && len(f.net.Sent) == 1 {
+				zz.Assert(!st.RequiresFinalization, "and only when no finalization is required")
+			}
 			zz.Reach("transport completion sends final Complete")
 		} else {
 			// a final Complete from the voucher-result / validation-update paths is sent only while finishing
@@ -74,7 +86,7 @@ func VerifC01_ResponderCompleteSites() {
 			zz.Reach("release sends final Complete")
 		}
 	}
-	if paused > 0 && site == 0 {
+	if paused > 0 && site == 0 && !raced {
 		zz.Assert(post.Status == datatransfer.Finalizing && channels.VerifView(post).ResponderPaused() && st.RequiresFinalization, "a paused Complete leaves the responder Finalizing and paused")
 		zz.Reach("paused Complete")
 	}
@@ -144,4 +156,17 @@ func VerifC01_LocalOnlyPull() {
 	zz.Assert(err == nil && f.g.VerifPeek(chid).Status == datatransfer.Completed, "completes locally")
 	zz.Assert(len(f.net.Sent) == 0, "without talking to a responder")
 	zz.Reach("local completion")
+}
+
+// VerifC01_RestartKeepsStoreConfiguration: a transfer healed by a restart keeps its per-channel
+// store: every restart path re-runs the transport configurer of the opening voucher type and
+// applies its options (after a process restart the in-memory option table is empty).
+// (Same bodies as the C10 restart harnesses; the clause "default or per-channel stores ... healed
+// by a restart" is C01's.)
+func VerifC01_RestartKeepsStoreConfiguration() {
+	if zz.Bool("incoming") {
+		VerifC10_IncomingRestart()
+	} else {
+		VerifC10_InitiatorRestart()
+	}
 }
